@@ -1,6 +1,7 @@
 (* C09 — Format detection is a transparent, total pre-selection step.
-   Pinned statements only; proofs are in theories/InputProofs.v. *)
-From XtModel Require Import Base InputModel InputProofs.
+   Pinned statements only; proofs are in theories/InputProofs.v,
+   theories/DetectProofs.v and theories/DetectTotalProofs.v. *)
+From XtModel Require Import Base InputModel InputProofs FormatsModel DetectModel DetectProofs DetectTotalProofs.
 
 (* Whatever program of partial reads, prefix requests and re-borrows format
    detection runs against a reader handle, under any short-read schedule and
@@ -20,3 +21,46 @@ Theorem C09_handle_transparent_slice :
     run_slice sched d ops f = (os, fo) ->
     (exists sl : bool, trace_ok d None sl (Some 0) ops os) /\ final_ok d None fo.
 Proof. exact slice_transparent. Qed.
+
+(* Detection never fails for a reason of its own.  Over a reader whose source
+   does not fail within its data (no fault, or one that lies beyond the end),
+   with the four trials in their fixed order, for every read schedule, every
+   program of handle operations the three third-party trials run and every
+   verdict function that reports an I/O error only after the handle showed it
+   one ("honest": the trials of msgpack.rs:44-53, json.rs:11-24, yaml.rs:17-34
+   as repaired; the oracle measures it on every run), the outcome is a format
+   or "no format detected" - never an error.  The same over a slice. *)
+Theorem C09_detection_never_errs_reader :
+  forall (sched : nat -> nat) (cutoff : nat) (toml_parses : bytes -> bool)
+         (d : bytes) (flt : option nat) (tm tj ty : trial),
+    fault_free d flt -> honest tm -> honest tj -> honest ty ->
+    exists r : option fmt, snd (detect_reader sched cutoff toml_parses tm tj ty d flt) = Ok r.
+Proof. exact detect_reader_never_errs. Qed.
+
+Theorem C09_detection_never_errs_slice :
+  forall (sched : nat -> nat) (cutoff : nat) (toml_parses : bytes -> bool)
+         (d : bytes) (tm tj ty : trial),
+    honest tm -> honest tj -> honest ty ->
+    exists r : option fmt, snd (detect sched cutoff toml_parses tm tj ty (start (HSlice d))) = Ok r.
+Proof. exact detect_slice_never_errs. Qed.
+
+(* The selected format's parser is handed the same input as when that format is
+   named: whatever the trials did - any programs, any verdicts, any schedule,
+   a source failing anywhere or nowhere - the stream (bytes, and the fault that
+   ends them) the parser reads after detection is the stream it reads when no
+   detection runs. *)
+Theorem C09_detected_input_is_explicit_input :
+  forall (sched : nat -> nat) (cutoff : nat) (toml_parses : bytes -> bool)
+         (tm tj ty : trial) (d : bytes) (flt : option nat),
+    stream_of (finish (fst (fst (detect_reader sched cutoff toml_parses tm tj ty d flt))) FinInput) =
+    stream_of (finish (from_reader d flt) FinInput).
+Proof. exact detected_input_is_explicit_input. Qed.
+
+(* ... and it is the complete, unaltered stream (or its first k bytes and the
+   source's own fault). *)
+Theorem C09_detection_preserves_stream :
+  forall (sched : nat -> nat) (cutoff : nat) (toml_parses : bytes -> bool)
+         (tm tj ty : trial) (d : bytes) (flt : option nat) (f : final),
+    final_ok d flt (finish (fst (fst (detect_reader sched cutoff toml_parses tm tj ty d flt))) f).
+Proof. exact detect_then_own. Qed.
+
